@@ -121,20 +121,30 @@ CORPUS = [
 
 # ----------------------------------------------------------------------------- Coq emission
 def ctx(t):
-    return "(%d,%d,%d,%d)" % tuple(t)
+    if all(0 <= x < 10 for x in t):
+        return "Xd %d" % (t[0] * 1000 + t[1] * 100 + t[2] * 10 + t[3])
+    return "X %d %d %d %d" % tuple(t)
 
 
 def ctxs(l):
-    return "[" + ";".join(ctx(t) for t in (l or [])) + "]"
+    l = l or []
+    if not l:
+        return "[]"
+    if all(0 <= x < 10 for t in l for x in t):
+        return "(Ld [" + ";".join(str(t[0] * 1000 + t[1] * 100 + t[2] * 10 + t[3]) for t in l) + "])"
+    return "[" + ";".join(ctx(t) for t in l) + "]"
 
 
 def cst(s):
-    return "[" + ";".join(str(x) for x in (s or [])) + "]"
+    s = s or []
+    if s and len(s) < 40 and all(0 <= x < 10 for x in s):
+        return "(Sd 1" + "".join(str(x) for x in s) + ")"
+    return "[" + ";".join(str(x) for x in s) + "]"
 
 
 def cop(o):
     if o["k"] == "a":
-        return "A %s" % ctx(o["t"])
+        return "A (%s)" % ctx(o["t"])
     if o["k"] == "b":
         return "Bf %s" % ctxs(o.get("dst"))
     return "R %s %s" % (cst(o["base"]), ctxs(o.get("applied")))
@@ -151,25 +161,31 @@ def cout(o, s):
 
 def csnap(s):
     sn = s["s"]
-    return "(%s,%s,%s,%s)" % (cst(sn["b"]), "true" if sn["u"] else "false", cst(sn["c"]), ctxs(sn["t"]))
+    return "%s %s %s %s" % (cst(sn["b"]), "true" if sn["u"] else "false", cst(sn["c"]), ctxs(sn["t"]))
 
 
 def ccase(c, d, a):
     ops = c["ops"]
     dsteps = d.get("steps") or []
     asteps = a.get("steps") or []
-    return "(%d,%d,%d,%s,\n [%s],\n [%s],\n [%s])" % (
+    same = len(dsteps) == len(asteps) and all(
+        x["e"] == y["e"] and x["l"] == y["l"] and x["s"]["t"] == (y.get("p") or []) for x, y in zip(dsteps, asteps))
+    if same:
+        aobs = "None"
+    else:
+        aobs = "(Some [%s])" % ";".join("P (%s) %s" % (cout(o, s), ctxs(s.get("p"))) for o, s in zip(ops, asteps))
+    return "C %d %d %d %s\n [%s]\n [%s]\n %s" % (
         c["id"], c["mode"], c["cap"], cst(c["base"]),
         ";".join(cop(o) for o in ops),
-        ";".join("(%s,%s)" % (cout(o, s), csnap(s)) for o, s in zip(ops, dsteps)),
-        ";".join("(%s,%s)" % (cout(o, s), ctxs(s.get("p"))) for o, s in zip(ops, asteps)))
+        ";".join("D (%s) %s" % (cout(o, s), csnap(s)) for o, s in zip(ops, dsteps)),
+        aobs)
 
 
 def cconc(c, r):
     ths = []
     for ops, steps in zip(c["threads"], r.get("threads") or []):
-        ths.append("[" + ";".join("(%s,%s)" % (cop(o), cout(o, s)) for o, s in zip(ops, steps)) + "]")
-    return "(%d,%d,%d,%s,[%s],\n [%s],\n %s)" % (
+        ths.append("[" + ";".join("OX (%s) (%s)" % (cop(o), cout(o, s)) for o, s in zip(ops, steps)) + "]")
+    return "CC %d %d %d %s [%s]\n [%s]\n %s" % (
         c["id"], c["mode"], c["cap"], cst(c["base"]), ";".join(cop(o) for o in c["ops"]),
         ";".join(ths), ctxs(r.get("final")))
 
@@ -202,28 +218,38 @@ class Runner:
         except Exception as e:  # noqa
             return None, "harness output unparsable: %s" % e
 
-    def evaluate(self, cases, res, tag, shard=400):
-        """Returns dict name -> list of bad case ids, or None on coqc failure (log in self.log)."""
-        bad = {"corr_direct": [], "corr_api": [], "mon_direct": [], "mon_api": [], "mon_model": []}
+    NAMES = ["corr_direct", "corr_api", "mon_direct", "mon_api", "mon_model"]
+
+    def evaluate(self, cases, res, tag, shard=120):
+        """Returns dict name -> list of bad case ids, or None on coqc failure (log in self.log).
+        Shards are evaluated by parallel coqc processes; one vm_compute per shard."""
+        from concurrent.futures import ThreadPoolExecutor
+        bad = {n: [] for n in self.NAMES}
         dmap = {d["id"]: d for d in res["direct"] or []}
         amap = {a["id"]: a for a in res["api"] or []}
-        for si in range(0, len(cases), shard):
+
+        def one(si):
             sh = cases[si:si + shard]
             body = HEADER + "Definition cases : list icase := [\n%s].\n" % ";\n".join(
                 ccase(c, dmap.get(c["id"], {}), amap.get(c["id"], {})) for c in sh)
-            for n in bad:
-                body += "Definition r_%s := Eval vm_compute in bad_ids %s cases.\nPrint r_%s.\n" % (n, n, n)
-            ok, out = self.c.coq_eval("c19_%s_%d" % (tag, si // shard), body)
-            self.n_eval += len(sh)
+            body += "Definition r_all := Eval vm_compute in (%s).\nPrint r_all.\n" % ", ".join(
+                "bad_ids %s cases" % n for n in self.NAMES)
+            return self.c.coq_eval("c19_%s_%d" % (tag, si // shard), body)
+
+        with ThreadPoolExecutor(max_workers=8) as ex:
+            results = list(ex.map(one, range(0, len(cases), shard)))
+        self.n_eval += len(cases)
+        for ok, out in results:
             if not ok:
                 self.log = out[-1500:]
                 return None
-            for n in bad:
-                g = grab(out, "r_" + n)
-                if g is None:
-                    self.log = "cannot parse r_%s in coqc output: %s" % (n, out[-500:])
-                    return None
-                bad[n] += g
+            m = re.search(r"r_all\s*=\s*\((.*?)\)\s*:", out, flags=re.S)
+            groups = re.findall(r"\[([^\]]*)\]", m.group(1)) if m else []
+            if len(groups) != len(self.NAMES):
+                self.log = "cannot parse r_all in coqc output: %s" % out[-500:]
+                return None
+            for n, g in zip(self.NAMES, groups):
+                bad[n] += [int(x) for x in re.findall(r"\d+", g)]
         return bad
 
     def evaluate_conc(self, conc, res, tag):
@@ -237,7 +263,7 @@ class Runner:
         return grab(out, "r_conc")
 
 
-def shrink(runner, case, pred_names, rounds=6):
+def shrink(runner, case, pred_names, rounds=4):
     """Greedy shrinking: prefixes and single-request deletions, one harness + one coqc run per round."""
     cur = case
     for rnd in range(rounds):
@@ -339,8 +365,9 @@ def main(argv):
     mon_bad = sorted(set(bad["mon_direct"]) | set(bad["mon_api"]))
     corr_bad = sorted(set(bad["corr_direct"]) | set(bad["corr_api"]))
     reported = set()
-    for cid in sorted(mon_bad, key=lambda i: len(by_id[i]["ops"]))[:3]:
-        small = shrink(runner, by_id[cid], ["mon_direct", "mon_api"])
+    # prefer the documented by-value deleter (mode 0) as the replay, then the shortest case
+    for n_rep, cid in enumerate(sorted(mon_bad, key=lambda i: (by_id[i]["mode"] != 0, len(by_id[i]["ops"])))[:2]):
+        small = shrink(runner, by_id[cid], ["mon_direct", "mon_api"], rounds=4 if n_rep == 0 else 1)
         key = "pending-not-replayable:" + sig(small)
         if key in reported:
             continue
@@ -361,10 +388,12 @@ def main(argv):
     if bad["mon_model"]:
         c.fail_obligation("model-satisfies-monitor (evaluated)", "model trace violates its own monitor on cases %s" % bad["mon_model"][:5],
                           {"cases": [by_id[i] for i in bad["mon_model"][:2]]})
-    for cid in (conc_bad or [])[:2]:
+    # the kernel runs the same workingState code: concurrent failures are reported only when the
+    # sequential monitors found nothing (otherwise they are the same defect seen again)
+    for cid in ([] if mon_bad else (conc_bad or []))[:1]:
         cs = [x for x in conc if x["id"] == cid][0]
         ob = [r for r in res["conc"] if r["id"] == cid][0]
-        c.report("concurrent-not-serializable:" + sig(cs),
+        c.report("concurrent-not-serializable:" + sig(cs) + "|" + "|".join("".join(o["k"] for o in th) for th in cs["threads"]),
                  "results of concurrent AddTx/Buffered/Rebase callers are not explained by any serial order",
                  {"conc": [cs], "observed": ob})
     if not proved and not c.violations:
